@@ -58,7 +58,11 @@ func (ft *FT) axiomTerms(upTo *Axiom) []axTerm {
 		}
 		t, err := env.EvalBool(stmt)
 		if err != nil {
-			ft.unsupported("axiom %s: %v", ax.Name, err)
+			// typically: the axiom talks about a package that is not loaded for this check; it cannot be relevant then
+			if ft.axSkipped == nil {
+				ft.axSkipped = map[string]string{}
+			}
+			ft.axSkipped[ax.Name] = err.Error()
 			continue
 		}
 		syms := map[string]bool{}
@@ -71,9 +75,15 @@ func (ft *FT) axiomTerms(upTo *Axiom) []axTerm {
 }
 
 // BuildQuery assembles the SMT-LIB text for one obligation.
-func (ft *FT) BuildQuery(o *Obl, axs []axTerm) string {
+func (ft *FT) BuildQuery(o *Obl, axs []axTerm) string { return ft.buildQueryOpt(o, axs, true) }
+
+func (ft *FT) buildQueryOpt(o *Obl, axs []axTerm, slice bool) string {
 	var body bytes.Buffer
-	for _, f := range ft.sliceFacts(o) {
+	facts := ft.facts[:o.NFacts]
+	if slice {
+		facts = ft.sliceFacts(o)
+	}
+	for _, f := range facts {
 		body.WriteString("(assert " + f + ")\n")
 	}
 	for _, h := range o.Hints {
